@@ -235,3 +235,34 @@ P.unit(JM, name="jobmap[vectorized jobs]")(unit(True))
 from contracts import C17_jobs as C17
 P.include(C17.P, ["run_local: files, command loop"], why="the recorded exit code / input hash decide reuse")
 P.include(C17.P, ["JobInput: the hash covers every field"], why="cache reuse compares input hashes")
+
+
+# ------------------------------------------------------------------------------------------ directory-backed destinations
+@P.unit("molli.storage.backends:DirCollectionBackend.get_path", name="DirCollectionBackend: every key has its own file (dir/key+ext), so one item's result can never land on another key")
+def _dir_paths(V):
+    """jobmap's 'already in the destination / store the result under this key' is only as good as the backend's key -> file mapping.
+    Path.with_suffix / stem / name are uninterpreted: only  dir / (key + ext)  is known to be injective in the key."""
+    I, st = V.I, V.st
+    Path = I.ext_models["pathlib.Path"]
+    S = z3.StringSort()
+    Fsuf = z3.Function("path_with_suffix", S, S, S)
+    mk = lambda z: Obj(Path, {"s": SV(z, "str")}, tag="path")
+    Path.ns["__truediv__"] = Builtin("Path./", lambda i, a, k: mk(z3.Concat(to_z3(a[0].fields["s"]), z3.StringVal("/"), to_z3(a[1] if not isinstance(a[1], Obj) else a[1].fields["s"]))))
+    Path.ns["with_suffix"] = Builtin("Path.with_suffix", lambda i, a, k: mk(Fsuf(to_z3(a[0].fields["s"]), to_z3(a[1]))))
+    Path.ns["with_name"] = Builtin("Path.with_name", lambda i, a, k: mk(z3.Function("path_with_name", S, S, S)(to_z3(a[0].fields["s"]), to_z3(a[1]))))
+    cls = V.cls("molli.storage.backends:DirCollectionBackend")
+    d = V.sym("dir", "str")
+    ext = V.sym("ext", "str")
+    b = Obj(cls, {"_path": mk(d.z), "ext": ext}, tag="dirbackend")
+    k1, k2 = V.sym("key1", "str"), V.sym("key2", "str")
+    V.witness(lambda ev: {"op": "dir-keys", "signature": "dir-keys"})
+    V.cover()
+    p1 = V.method(b, "get_path", [k1], qual="molli.storage.backends:DirCollectionBackend.get_path")
+    p2 = V.method(b, "get_path", [k2])
+    ok = p1.returned and p2.returned and isinstance(p1.value, Obj) and isinstance(p2.value, Obj)
+    V.ensure("dir/get_path-returns-a-path", z3.BoolVal(bool(ok)))
+    if not ok:
+        return
+    s1, s2 = to_z3(p1.value.fields["s"]), to_z3(p2.value.fields["s"])
+    V.ensure("dir/file-of-a-key-is-dir/key+ext", s1 == z3.Concat(d.z, z3.StringVal("/"), k1.z, ext.z))
+    V.ensure("dir/different-keys-never-share-a-file", z3.Implies(s1 == s2, k1.z == k2.z))
